@@ -419,6 +419,15 @@ class Interp:
                 return self.models[name](self, e, env)
             if k == 'call' and (SX.callee(e) or '').startswith(('std::move', 'std::forward')) and len(SX.real_args(e)) == 1:
                 return self.expr(SX.real_args(e)[0], env)
+            if k == 'call' and (SX.callee(e) or '').split('<')[0] in ('std::sort', 'std::stable_sort', 'std::reverse') and len(SX.real_args(e)) == 2:
+                a = [self.expr(x, env) for x in SX.real_args(e)]
+                if all(isinstance(x, tuple) and x[0] == 'iter' and len(x) == 3 and isinstance(x[2], list) for x in a) and a[0][2] is a[1][2]:
+                    lst = a[0][2]
+                    seg = lst[a[0][1]:a[1][1]]
+                    seg = sorted(seg) if 'sort' in SX.callee(e) else list(reversed(seg))
+                    lst[a[0][1]:a[1][1]] = seg
+                    return None
+                raise Unsupported('call ' + SX.callee(e))
             if k == 'call' and (SX.callee(e) or '').split('<')[0] in ('std::copy', 'std::fill') and len(SX.real_args(e)) == 3:
                 a = [self.expr(x, env) for x in SX.real_args(e)]
                 if all(isinstance(x, tuple) and x[0] == 'iter' and len(x) == 3 and isinstance(x[2], list) for x in a[:2]) and a[0][2] is a[1][2]:
